@@ -171,18 +171,34 @@ def r2_item_gates(ctx) -> None:
         else:
             r.ok("C13.R2", m.qual, f"interpreted on [A, B, [C]] for {cq.rsplit('.', 1)[-1]}: apply_detection_item is called exactly for the items the processing item's conditions match (all items without a processing item), nested detections included ({len(outs)} scenarios)", m.loc)
     f = prog.func(TB + ".FieldMappingTransformationBase._apply_field_name")
-    rets = [x for x in walk_no_nested(f.node) if isinstance(x, ast.Return)]
-    for x in rets:
-        v = unparse(x.value)
-        gs = atomic_guards(guards_at(prog, f, x))
-        loc = f"{f.module.relpath}:{x.lineno}"
-        gate = ("self.processing_item is None or self.processing_item.match_field_name(field)", True) in gs
-        if v == "[field]":
-            r.ok("C13.R2", f.qual, "unmatched → [field] unchanged", loc)
-        elif gate and ("result is not None", True) in gs:
-            r.ok("C13.R2", f.qual, "mapped result returned only under match_field_name(field)", loc)
-        else:
-            r.violation("C13.R2", f.qual, stmt_head(x), f"a mapped field name is returned without the field-name gate ({gs})", loc)
+    # interpreted (sa.tabulate, Proxy): mapping answer (none / one name / several) x processing item (none / gate passes / gate fails)
+    from ..tabulate import Proxy as _P2, call_method as _cm2, Raised as _R2
+    FMQ = TB + ".FieldMappingTransformationBase"
+    bad2 = []
+    n2 = 0
+    for answer in (None, "m", ["m1", "m2"]):
+        for gate in (None, True, False):
+            n2 += 1
+            asked, tracked = [], []
+            pi = None if gate is None else type("PI", (), {"identifier": "pi", "match_field_name": lambda s_, fn, g_=gate: (asked.append(fn), g_)[1]})()
+            pl = type("PL", (), {"track_field_processing_items": lambda s_, *a: tracked.append(a)})()
+            me2 = _P2(prog, FMQ, {"cast": lambda t, v: v}, {"processing_item": pi, "_pipeline": pl, "apply_field_name": lambda fn, a_=answer: a_}, interp_kwargs={"max_steps": 4000})
+            try:
+                got = _cm2(prog, FMQ, "_apply_field_name", me2, {"cast": lambda t, v: v}, "f", interp_kwargs={"max_steps": 4000})
+            except _R2 as ex:
+                got = f"<raises {ex}>"
+            mapped = answer is not None and gate is not False
+            want = ([answer] if isinstance(answer, str) else list(answer)) if mapped else ["f"]
+            if got != want:
+                bad2.append(f"mapping answer {answer!r}, field-name gate {'absent' if gate is None else 'passes' if gate else 'fails'}: returns {got!r} instead of {want!r}")
+            elif mapped and pi is not None and not tracked:
+                bad2.append(f"mapping answer {answer!r}, gate passes: the mapping is not recorded in the per-name tracking of the pipeline")
+            elif not mapped and tracked:
+                bad2.append(f"mapping answer {answer!r}, field-name gate {'absent' if gate is None else 'fails'}: a mapping that was not made is recorded")
+    if bad2:
+        r.violation("C13.R2", f.qual, f"_apply_field_name: {bad2[0]}", f"{len(bad2)} of {n2} interpreted cases deviate: a field name is mapped exactly if the transformation has a mapping for it and the field-name conditions of its processing item (if any) match", f.loc)
+    else:
+        r.ok("C13.R2", f.qual, f"mapped result returned exactly under a mapping answer and match_field_name(field) (no processing item: always); otherwise [field] unchanged ({n2} interpreted cases)", f.loc)
     f = prog.func(TB + ".FieldMappingTransformationBase.apply_detection_item")
     stores = [n_ for n_ in walk_no_nested(f.node) if isinstance(n_, ast.Assign) and unparse(n_.targets[0]) in ("detection_item.field", "field_match")]
     for st in stores:
@@ -837,7 +853,22 @@ def r7_walkers(ctx, rid: str = "C13.R7", scope=("sigma.processing", "sigma.valid
                         return True
                     rec = [c for c in ast.walk(node) if isinstance(c, ast.Call) and call_name(c).startswith("self.") and call_name(c).count(".") == 1 and reaches(call_name(c)[5:], 0, set())]
                 filt = any("isinstance" in unparse(i) and "SigmaDetectionItem" in unparse(i) for g in getattr(node, "generators", []) for i in g.ifs)
-                if rec and not filt:
+                # a comprehension that hands the elements on as they are and only leaves out instances of a class that no nested
+                # detection is an instance of (the marker of deleted items) does nothing to any element: it is no walk
+                pure_selection = False
+                if isinstance(node, (ast.ListComp, ast.GeneratorExp)) and len(node.generators) == 1 and isinstance(node.generators[0].target, ast.Name) \
+                        and isinstance(node.elt, ast.Name) and node.elt.id == node.generators[0].target.id and node.generators[0].ifs:
+                    det_mro = set(prog.mro("sigma.rule.detection.SigmaDetection"))
+                    def leaves_nested(cond: ast.AST) -> bool:
+                        if not (isinstance(cond, ast.UnaryOp) and isinstance(cond.op, ast.Not) and isinstance(cond.operand, ast.Call) and call_name(cond.operand) == "isinstance" and len(cond.operand.args) == 2):
+                            return False
+                        a0, a1 = cond.operand.args
+                        cq_ = prog.resolve_expr(f.module, a1)
+                        return isinstance(a0, ast.Name) and a0.id == node.elt.id and cq_ in prog.classes and cq_ not in det_mro
+                    pure_selection = all(leaves_nested(c_) for c_ in node.generators[0].ifs)
+                if pure_selection:
+                    r.ok(rid, q, f"{short(node, 90)}: a selection that keeps every nested detection and changes no element", loc)
+                elif rec and not filt:
                     r.ok(rid, q, f"walk over {t} recurses through {f.name}(...)", loc)
                 else:
                     r.violation(rid, q, stmt_head(node, 140) if isinstance(node, ast.stmt) else short(node, 140),
